@@ -331,6 +331,24 @@ func c06(c *ctx) error {
 				}
 			}
 		}
+		// one store write fails once (no crash): the operation must either report the failure and
+		// leave no visible bundle, or succeed with a complete bundle
+		if op == "upload" {
+			for k := 1; k <= total; k++ {
+				base := c06Clone(w.env)
+				g := &crashstore.Group{FailOnceAt: k}
+				rerr := run(wrap(base, g), newID)
+				kinds := make([]string, len(g.Writes))
+				for j, wr := range g.Writes {
+					kinds[j] = c06Kind(wr, newID)
+				}
+				res := "ok"
+				if rerr != nil {
+					res = "err"
+				}
+				c.w.Op(fmt.Sprintf("failonce seq=%s k=%d res=%s", strings.Join(kinds, ","), k, res), c06Observe(w, base, newTree, perFile))
+			}
+		}
 		c.w.End()
 	})
 }
